@@ -341,7 +341,12 @@ def call_builder(net, scn, T, syn):
     elif scn["call"] == "sparse":
         jc.sparse_connect(pre, post, syn, scn["p"])
     elif scn["call"] == "matrix":
-        jc.connectivity_matrix_connect(pre, post, syn, np.asarray(scn["matrix"], dtype=bool).reshape(len(scn["pre"]), len(scn["post"])))
+        mat = np.asarray(scn["matrix"], dtype=bool).reshape(len(scn["pre"]), len(scn["post"]))
+        if scn.get("layout") == "F":
+            mat = np.asfortranarray(mat)  # same entries, column-major memory (what `W.T > 0` or a transposed view hands over)
+        elif scn.get("layout") == "T":
+            mat = np.ascontiguousarray(mat.T).T  # a transposed view of a C-ordered (post x pre) array
+        jc.connectivity_matrix_connect(pre, post, syn, mat)
     else:
         raise ValueError(scn["call"])
 
@@ -819,8 +824,15 @@ def scenarios(tier):
         for bits in _wide_matrices(len(pre), len(post)):
             scns.append(_scn("D", "same", "TestSynapse", "matrix", pre, post, "select", matrix=bits))
             scns.append(_scn("D", "none", "IonotropicSynapse", "matrix", pre, post, "cell", matrix=bits))
+            scns.append(_scn("D", "none", "IonotropicSynapse", "matrix", pre, post, "cell", matrix=bits, layout="F"))
+            scns.append(_scn("D", "same", "TestSynapse", "matrix", pre, post, "select", matrix=bits, layout="T"))
         if len(pre) * len(post) <= 4:
             scns.append(_scn("D", "other", "TestSynapse", "sparse", pre, post, "cell", p=0.5))
+    # column-major / transposed-view matrices on the small networks too (every matrix of two population pairs)
+    for net, pre, post in [("A", [0], [3, 1]), ("A", [3, 0, 1], [2]), ("A", [0, 1], [3, 1]), ("A", [2, 3, 1], [3, 0])]:
+        for bits in itertools.product([0, 1], repeat=len(pre) * len(post)):
+            for lay in ("F", "T"):
+                scns.append(_scn(net, "same", "TestSynapse", "matrix", pre, post, "select", matrix=list(bits), layout=lay))
     # no duplicates
     seen, out = set(), []
     for s in scns:
